@@ -91,7 +91,8 @@ async fn recv_all(mut r: Receiver, c: J, log: Log, ln: u32) -> Receiver {
     let credit = c["credit"].as_i64().unwrap_or(10);
     let auto = c["auto"].as_bool().unwrap_or(false);
     for _ in 0..all.len() {
-        if credit <= 0 { let _ = r.set_credit(1).await; }
+        // Manual: one credit per recv (0), or |credit| credits granted again before every recv, i.e. while earlier deliveries are in flight or queued (< 0)
+        if credit <= 0 { let _ = r.set_credit(if credit < 0 { (-credit) as u32 } else { 1 }).await; }
         match r.recv::<Body<Value>>().await {
             Ok(d) => {
                 let msg: &Message<Body<Value>> = d.message();
@@ -129,6 +130,8 @@ async fn run_case(c: J, log: Log) {
     let buf = c["buf"].as_u64().unwrap_or(256) as usize;
     let c2l = c["dir"].as_str().unwrap_or("c2l") == "c2l";
     let credit = c["credit"].as_i64().unwrap_or(10);
+    // max-message-size of the links (0 = none): messages above it are split by the sending link, on top of the split at max-frame-size
+    let mms = c.get("mms").and_then(|x| x.as_u64()).unwrap_or(0);
     let auto = c["auto"].as_bool().unwrap_or(false);
     let (cl, ll) = (c.clone(), c.clone());
     let (log_c, log_l) = (log.clone(), log.clone());
@@ -153,13 +156,13 @@ async fn run_case(c: J, log: Log) {
             let sess = &mut sessions[(ln % nsess) as usize];
             let name = format!("L{ln}");
             if c2l {
-                match Sender::builder().name(name).target("q").sender_settle_mode(snd_mode(&c)).receiver_settle_mode(rcv_mode(&c)).attach(sess).await {
+                match { let mut b = Sender::builder().name(name).target("q").sender_settle_mode(snd_mode(&c)).receiver_settle_mode(rcv_mode(&c)); if mms > 0 { b = b.max_message_size(mms); } b }.attach(sess).await {
                     Ok(s) => { let (c2, l2) = (c.clone(), log_c.clone()); apps.push(tokio::spawn(async move { let _s = send_all(s, c2, l2, ln).await; let () = std::future::pending().await; })); }
                     Err(e) => { emit(&log_c, json!({"ev": "SetupErr", "who": "client-attach", "err": format!("{e:?}")})); return; }
                 }
             } else {
-                match Receiver::builder().name(name).source("q").sender_settle_mode(snd_mode(&c)).receiver_settle_mode(rcv_mode(&c)).auto_accept(auto)
-                    .credit_mode(if credit > 0 { CreditMode::Auto(credit as u32) } else { CreditMode::Manual }).attach(sess).await {
+                match { let mut b = Receiver::builder().name(name).source("q").sender_settle_mode(snd_mode(&c)).receiver_settle_mode(rcv_mode(&c)).auto_accept(auto)
+                    .credit_mode(if credit > 0 { CreditMode::Auto(credit as u32) } else { CreditMode::Manual }); if mms > 0 { b = b.max_message_size(mms); } b }.attach(sess).await {
                     Ok(r) => { let (c2, l2) = (c.clone(), log_c.clone()); apps.push(tokio::spawn(async move { let _r = recv_all(r, c2, l2, ln).await; let () = std::future::pending().await; })); }
                     Err(e) => { emit(&log_c, json!({"ev": "SetupErr", "who": "client-attach", "err": format!("{e:?}")})); return; }
                 }
@@ -184,7 +187,7 @@ async fn run_case(c: J, log: Log) {
         let mut apps = vec![];
         for ln in 0..nlinks {
             let sess = &mut sessions[(ln % nsess) as usize];
-            match LinkAcceptor::builder().build().accept(sess).await {
+            match { let mut b = LinkAcceptor::builder(); if mms > 0 { b = b.max_message_size(mms); } b }.build().accept(sess).await {
                 Ok(LinkEndpoint::Receiver(mut r)) => {
                     if credit > 0 { r.set_credit_mode(CreditMode::Auto(credit as u32)); let _ = r.set_credit(credit as u32).await; } else { r.set_credit_mode(CreditMode::Manual); let _ = r.set_credit(0).await; }
                     r.set_auto_accept(auto);
